@@ -278,7 +278,7 @@ PROPS["C19"] = {
 PROPS["C11"] = {
     "lean_module": "LispModel.Props.C11",
     "tie_modules": ["LispModel.Tie.EnvSync"],
-    "engines": [{"name": "envconc", "quick": 150, "thorough": 3000}],
+    "engines": [{"name": "envconc", "quick": 500, "thorough": 6000}],
     "trivial_len": 3,
     "technique": "Lean 4 theorems about an interleaving micro-op model of env.go (per-scope RWMutex, the climb to outer through the locked entry "
                  "point, unlocked writes only on the scope not yet returned) with evaluations as adaptive sequences of env operations "
